@@ -7,7 +7,7 @@
     census (Gen/CopyCensus_gen.v, SM/StoreCopy.v — used read-only here); which fields localise modifies in place is
     read off the symbolic execution of the method bodies by translate/c17_formulas.py ([g_localise_writes]). *)
 From Coq Require Import List String Bool.
-From SV Require Import SM.StoreCopy.
+From SV Require Import SM.Store SM.StoreCopy.
 Import ListNotations.
 Open Scope string_scope.
 
@@ -55,3 +55,16 @@ Definition copied_classes_fresh (all : list (string * census)) (copied : list st
 (** Names of the offenders, for the failure report. *)
 Definition writes_not_ok (all : list (string * census)) (ws : list write) : list (string * string) :=
   map (fun w => (fst (fst w), snd (fst w))) (filter (fun w => negb (write_ok all w)) ws).
+
+(** Any number of collapses of one template, interleaved with arbitrary work on the copies made so far.
+    [R] = the copies the code holds; a collapse adds a copy ([col_copy]: the heap is extended, the new root reaches
+    only NEW mutable locations — which is what C09's census theorem [census_copy_new_mut] concludes for a copy built
+    as a fresh census says); between and after the copies, any in-place stores / allocations through [R] ([col_work]:
+    localise, keyvalue and output fixups, adding the copies to the map, other instances' collapses). *)
+Inductive collapses : heap -> list loc -> heap -> list loc -> Prop :=
+| col_done h R : collapses h R h R
+| col_work h R ms h1 R1 h2 R2 :
+    steps (h, R) ms (h1, R1) -> collapses h1 R1 h2 R2 -> collapses h R h2 R2
+| col_copy h R h1 lc h2 R2 :
+    closed h1 -> extends h h1 -> alloc h1 lc -> new_mut h h1 (VRef lc) ->
+    collapses h1 (lc :: R) h2 R2 -> collapses h R h2 R2.
